@@ -1,6 +1,12 @@
 //! C12 — serialization round trips through the real encoder/decoder.
+//!
+//! name scheme: c12_<tier>_<family>_<instance>; tier q = quick+thorough, t = thorough only,
+//! x / xq = deliberately wrong twins that the solver must refute.
 use crate::common::*;
 use qbice_serialize::{Decode, Encode};
+use std::collections::{BTreeMap, BTreeSet, HashMap, HashSet, LinkedList, VecDeque};
+use std::rc::Rc;
+use std::sync::Arc;
 
 /// every harness: Kani proof + standing stubs
 macro_rules! h {
@@ -13,14 +19,18 @@ macro_rules! h {
     };
 }
 
-/// round trip of a `PartialEq` value: equal, exactly the sentinel left.
+/// round trip of a `PartialEq` value: equal, exactly the sentinel left. Returns encoded length.
 fn check<T: Encode + Decode + PartialEq>(v: &T) -> usize {
     let s: u8 = kani::any();
     let (o, left, n) = rt(v, s);
     assert!(o == *v, "decode(encode(v)) == v");
     assert!(left == 1, "decoder consumed exactly the encoded bytes");
+    std::mem::forget(o);
     n
 }
+
+// ------------------------------------------------------------------------------------------
+// integers and scalar types: full range symbolic
 
 macro_rules! int_rt {
     ($name:ident, $t:ty, $maxlen:expr) => {
@@ -28,20 +38,499 @@ macro_rules! int_rt {
             let v: $t = kani::any();
             let n = check(&v);
             kani::cover!(n == $maxlen, "maximal encoding length reached");
-            kani::cover!(n == 1, "one byte encoding reached");
+            kani::cover!(n == 1 || $maxlen > 1 && n == 2, "short encoding reached");
         });
     };
 }
+int_rt!(c12_q_int_u8, u8, 1);
+int_rt!(c12_q_int_i8, i8, 1);
+int_rt!(c12_q_int_bool, bool, 1);
 int_rt!(c12_q_int_u16, u16, 3);
-int_rt!(c12_q_int_u64, u64, 10);
+int_rt!(c12_q_int_i16, i16, 3);
+int_rt!(c12_q_int_u32, u32, 5);
 int_rt!(c12_q_int_i32, i32, 5);
+int_rt!(c12_q_int_u64, u64, 10);
+int_rt!(c12_q_int_i64, i64, 10);
+int_rt!(c12_q_int_usize, usize, 10);
+int_rt!(c12_q_int_isize, isize, 10);
+int_rt!(c12_q_int_u128, u128, 19);
+int_rt!(c12_q_int_i128, i128, 19);
+int_rt!(c12_q_int_char, char, 3);
 
-// deliberately wrong twin: claims 3-byte encodings do not round trip
+h!(c12_q_int_f32, 6, {
+    let v: f32 = kani::any();
+    let s: u8 = kani::any();
+    let (o, left, n) = rt(&v, s);
+    assert!(o.to_bits() == v.to_bits(), "f32 bits preserved (incl. NaN payloads, -0.0)");
+    assert!(left == 1 && n == 4);
+    kani::cover!(v.is_nan(), "NaN input");
+    kani::cover!(v == 0.0 && v.is_sign_negative(), "negative zero");
+});
+h!(c12_q_int_f64, 10, {
+    let v: f64 = kani::any();
+    let s: u8 = kani::any();
+    let (o, left, n) = rt(&v, s);
+    assert!(o.to_bits() == v.to_bits(), "f64 bits preserved");
+    assert!(left == 1 && n == 8);
+    kani::cover!(v.is_nan(), "NaN input");
+    kani::cover!(v.is_infinite(), "infinite input");
+});
+
+macro_rules! nz_rt {
+    ($name:ident, $t:ty, $maxlen:expr) => {
+        h!($name, $maxlen + 2, {
+            let v: $t = kani::any();
+            let n = check(&v);
+            kani::cover!(n == $maxlen, "maximal encoding length reached");
+        });
+    };
+}
+nz_rt!(c12_q_nz_u8, std::num::NonZeroU8, 1);
+nz_rt!(c12_q_nz_i8, std::num::NonZeroI8, 1);
+nz_rt!(c12_q_nz_u16, std::num::NonZeroU16, 3);
+nz_rt!(c12_q_nz_i16, std::num::NonZeroI16, 3);
+nz_rt!(c12_t_nz_u32, std::num::NonZeroU32, 5);
+nz_rt!(c12_t_nz_i32, std::num::NonZeroI32, 5);
+nz_rt!(c12_t_nz_u64, std::num::NonZeroU64, 10);
+nz_rt!(c12_q_nz_i64, std::num::NonZeroI64, 10);
+nz_rt!(c12_t_nz_usize, std::num::NonZeroUsize, 10);
+nz_rt!(c12_t_nz_isize, std::num::NonZeroIsize, 10);
+nz_rt!(c12_t_nz_u128, std::num::NonZeroU128, 19);
+nz_rt!(c12_t_nz_i128, std::num::NonZeroI128, 19);
+
+macro_rules! atomic_rt {
+    ($name:ident, $at:ty, $inner:ty, $maxlen:expr) => {
+        h!($name, $maxlen + 2, {
+            use std::sync::atomic::Ordering::Relaxed;
+            let x: $inner = kani::any();
+            let v = <$at>::new(x);
+            let s: u8 = kani::any();
+            let (o, left, n) = rt(&v, s);
+            assert!(o.load(Relaxed) == x, "atomic value preserved");
+            assert!(left == 1);
+            kani::cover!(n == $maxlen, "maximal encoding length reached");
+        });
+    };
+}
+atomic_rt!(c12_t_atomic_bool, std::sync::atomic::AtomicBool, bool, 1);
+atomic_rt!(c12_t_atomic_i8, std::sync::atomic::AtomicI8, i8, 1);
+atomic_rt!(c12_t_atomic_u8, std::sync::atomic::AtomicU8, u8, 1);
+atomic_rt!(c12_t_atomic_i16, std::sync::atomic::AtomicI16, i16, 3);
+atomic_rt!(c12_q_atomic_u16, std::sync::atomic::AtomicU16, u16, 3);
+atomic_rt!(c12_t_atomic_i32, std::sync::atomic::AtomicI32, i32, 5);
+atomic_rt!(c12_t_atomic_u32, std::sync::atomic::AtomicU32, u32, 5);
+atomic_rt!(c12_q_atomic_i64, std::sync::atomic::AtomicI64, i64, 10);
+atomic_rt!(c12_t_atomic_u64, std::sync::atomic::AtomicU64, u64, 10);
+atomic_rt!(c12_t_atomic_isize, std::sync::atomic::AtomicIsize, isize, 10);
+atomic_rt!(c12_t_atomic_usize, std::sync::atomic::AtomicUsize, usize, 10);
+
+// wrappers around a symbolic integer
+macro_rules! val_rt {
+    ($name:ident, $unw:expr, $ty:ty, $mk:expr $(, $cov:expr, $covmsg:expr)?) => {
+        h!($name, $unw, {
+            let v: $ty = $mk;
+            let _n = check(&v);
+            $( kani::cover!(($cov)(&v, _n), $covmsg); )?
+            std::mem::forget(v);
+        });
+    };
+}
+val_rt!(c12_q_wrap_wrapping_i32, 7, std::num::Wrapping<i32>, std::num::Wrapping(kani::any()), |_v, n| n == 5, "5-byte varint");
+val_rt!(c12_q_wrap_reverse_u64, 12, std::cmp::Reverse<u64>, std::cmp::Reverse(kani::any()), |_v, n| n == 10, "10-byte varint");
+val_rt!(c12_q_wrap_cell_u16, 5, std::cell::Cell<u16>, std::cell::Cell::new(kani::any()), |_v, n| n == 3, "3-byte varint");
+val_rt!(c12_q_wrap_refcell_i16, 5, std::cell::RefCell<i16>, std::cell::RefCell::new(kani::any()), |_v, n| n == 3, "3-byte varint");
+val_rt!(c12_q_wrap_box_u32, 7, Box<u32>, Box::new(kani::any()), |_v, n| n == 5, "5-byte varint");
+val_rt!(c12_q_wrap_rc_i64, 12, Rc<i64>, Rc::new(kani::any()), |_v, n| n == 10, "10-byte varint");
+val_rt!(c12_q_wrap_arc_u16, 5, Arc<u16>, Arc::new(kani::any()), |_v, n| n == 3, "3-byte varint");
+val_rt!(c12_q_wrap_cow_u16, 5, std::borrow::Cow<'static, u16>, std::borrow::Cow::Owned(kani::any()), |_v, n| n == 3, "3-byte varint");
+val_rt!(c12_q_wrap_phantom, 3, std::marker::PhantomData<u64>, std::marker::PhantomData, |_v, n| n == 0, "zero bytes");
+val_rt!(c12_q_wrap_unit, 3, (), (), |_v, n| n == 0, "zero bytes");
+val_rt!(c12_q_wrap_rangefull, 3, std::ops::RangeFull, .., |_v, n| n == 0, "zero bytes");
+
+h!(c12_q_wrap_duration, 12, {
+    let secs: u64 = kani::any();
+    let nanos: u32 = kani::any();
+    kani::assume(nanos < 1_000_000_000);
+    let v = std::time::Duration::new(secs, nanos);
+    let n = check(&v);
+    kani::cover!(n == 15, "10-byte secs and 5-byte nanos");
+    kani::cover!(n == 2, "two one-byte fields");
+});
+
+// ------------------------------------------------------------------------------------------
+// sums
+
+val_rt!(c12_q_sum_option_u16, 5, Option<u16>, kani::any(), |v: &Option<u16>, n| v.is_some() && n == 4, "Some with 3-byte payload");
+val_rt!(c12_q_sum_option_option_u8, 3, Option<Option<u8>>, kani::any(), |v: &Option<Option<u8>>, _n| *v == Some(None), "Some(None)");
+val_rt!(c12_q_sum_result_u32_i16, 7, Result<u32, i16>, kani::any(), |v: &Result<u32, i16>, n| v.is_err() && n == 4, "Err with 3-byte payload");
+val_rt!(c12_q_sum_result_unit_u8, 3, Result<(), u8>, kani::any(), |v: &Result<(), u8>, _n| v.is_ok(), "Ok(())");
+h!(c12_q_sum_bound_u16, 5, {
+    let tag: u8 = kani::any();
+    let x: u16 = kani::any();
+    let v = match tag % 3 { 0 => std::ops::Bound::Unbounded, 1 => std::ops::Bound::Included(x), _ => std::ops::Bound::Excluded(x) };
+    let n = check(&v);
+    kani::cover!(matches!(v, std::ops::Bound::Excluded(_)) && n == 4, "Excluded, 3-byte payload");
+    kani::cover!(matches!(v, std::ops::Bound::Unbounded), "Unbounded");
+    kani::cover!(matches!(v, std::ops::Bound::Included(_)), "Included");
+});
+val_rt!(c12_q_sum_range_u16, 5, std::ops::Range<u16>, kani::any::<u16>()..kani::any::<u16>(), |v: &std::ops::Range<u16>, _n| v.start > v.end, "empty (reversed) range");
+val_rt!(c12_q_sum_rangeincl_i16, 5, std::ops::RangeInclusive<i16>, kani::any::<i16>()..=kani::any::<i16>(), |_v, n| n == 6, "both bounds 3 bytes");
+val_rt!(c12_t_sum_rangefrom_u32, 7, std::ops::RangeFrom<u32>, kani::any::<u32>().., |_v, n| n == 5, "5 bytes");
+val_rt!(c12_t_sum_rangeto_u32, 7, std::ops::RangeTo<u32>, ..kani::any::<u32>(), |_v, n| n == 5, "5 bytes");
+val_rt!(c12_t_sum_rangetoincl_u32, 7, std::ops::RangeToInclusive<u32>, ..=kani::any::<u32>(), |_v, n| n == 5, "5 bytes");
+
+// tuples
+val_rt!(c12_q_tuple_1, 5, (u16,), (kani::any(),), |_v, n| n == 3, "3 bytes");
+val_rt!(c12_q_tuple_2, 7, (u16, i32), (kani::any(), kani::any()), |_v, n| n == 8, "3+5 bytes");
+val_rt!(c12_q_tuple_3, 7, (u8, Option<u16>, bool), (kani::any(), kani::any(), kani::any()), |_v, n| n == 6, "1+4+1 bytes");
+val_rt!(c12_t_tuple_4, 7, (i8, u16, i32, char), (kani::any(), kani::any(), kani::any(), kani::any()), |_v, n| n == 12, "1+3+5+3 bytes");
+val_rt!(c12_t_tuple_12, 5, (u8, i8, u8, i8, u8, i8, u8, i8, u8, i8, u8, bool),
+    (kani::any(), kani::any(), kani::any(), kani::any(), kani::any(), kani::any(), kani::any(), kani::any(), kani::any(), kani::any(), kani::any(), kani::any()),
+    |_v, n| n == 12, "twelve one-byte fields");
+val_rt!(c12_q_tuple_nested, 5, ((u8, u16), (u16, u8)), ((kani::any(), kani::any()), (kani::any(), kani::any())), |_v, n| n == 8, "maximal");
+
+// arrays
+val_rt!(c12_q_array_0, 3, [u16; 0], [], |_v, n| n == 0, "zero bytes");
+val_rt!(c12_q_array_1, 5, [u16; 1], kani::any(), |_v, n| n == 3, "max");
+val_rt!(c12_q_array_2, 5, [i16; 2], kani::any(), |_v, n| n == 6, "max");
+val_rt!(c12_q_array_3, 7, [u16; 3], kani::any(), |_v, n| n == 9, "max");
+val_rt!(c12_t_array_3_opt, 7, [Option<u8>; 3], kani::any(), |_v, n| n == 6, "all Some");
+
+// ------------------------------------------------------------------------------------------
+// sequences: concrete length, symbolic elements
+
+fn vec_u16<const L: usize>() -> Vec<u16> {
+    let a: [u16; L] = kani::any();
+    a.to_vec()
+}
+
+macro_rules! seq_rt {
+    ($name:ident, $ty:ty, $len:expr, $conv:expr) => {
+        h!($name, 8, {
+            let base = vec_u16::<$len>();
+            let v: $ty = ($conv)(base);
+            let n = check(&v);
+            kani::cover!(n == 1 + 3 * $len, "every element needs 3 bytes");
+            std::mem::forget(v);
+        });
+    };
+}
+seq_rt!(c12_q_seq_vec_0, Vec<u16>, 0, |b: Vec<u16>| b);
+seq_rt!(c12_q_seq_vec_1, Vec<u16>, 1, |b: Vec<u16>| b);
+seq_rt!(c12_q_seq_vec_2, Vec<u16>, 2, |b: Vec<u16>| b);
+seq_rt!(c12_t_seq_vec_3, Vec<u16>, 3, |b: Vec<u16>| b);
+seq_rt!(c12_q_seq_vecdeque_0, VecDeque<u16>, 0, |b: Vec<u16>| b.into_iter().collect());
+seq_rt!(c12_q_seq_vecdeque_1, VecDeque<u16>, 1, |b: Vec<u16>| b.into_iter().collect());
+seq_rt!(c12_t_seq_vecdeque_2, VecDeque<u16>, 2, |b: Vec<u16>| b.into_iter().collect());
+seq_rt!(c12_t_seq_vecdeque_3, VecDeque<u16>, 3, |b: Vec<u16>| b.into_iter().collect());
+seq_rt!(c12_q_seq_linkedlist_0, LinkedList<u16>, 0, |b: Vec<u16>| b.into_iter().collect());
+seq_rt!(c12_q_seq_linkedlist_1, LinkedList<u16>, 1, |b: Vec<u16>| b.into_iter().collect());
+seq_rt!(c12_t_seq_linkedlist_2, LinkedList<u16>, 2, |b: Vec<u16>| b.into_iter().collect());
+seq_rt!(c12_t_seq_linkedlist_3, LinkedList<u16>, 3, |b: Vec<u16>| b.into_iter().collect());
+seq_rt!(c12_q_seq_boxslice_0, Box<[u16]>, 0, |b: Vec<u16>| b.into_boxed_slice());
+seq_rt!(c12_t_seq_boxslice_2, Box<[u16]>, 2, |b: Vec<u16>| b.into_boxed_slice());
+seq_rt!(c12_t_seq_boxslice_3, Box<[u16]>, 3, |b: Vec<u16>| b.into_boxed_slice());
+seq_rt!(c12_t_seq_arcslice_2, Arc<[u16]>, 2, |b: Vec<u16>| Arc::from(b));
+seq_rt!(c12_t_seq_arcslice_0, Arc<[u16]>, 0, |b: Vec<u16>| Arc::from(b));
+seq_rt!(c12_t_seq_rcslice_2, Rc<[u16]>, 2, |b: Vec<u16>| Rc::from(b));
+seq_rt!(c12_t_seq_cowslice_2, std::borrow::Cow<'static, [u16]>, 2, |b: Vec<u16>| std::borrow::Cow::Owned(b));
+
+// VecDeque whose ring buffer is wrapped (head in the middle): history must not matter
+h!(c12_t_seq_vecdeque_wrapped, 9, {
+    let a: [u16; 3] = kani::any();
+    let mut v: VecDeque<u16> = VecDeque::with_capacity(4);
+    v.push_back(0); v.push_back(0); v.push_back(a[0]);
+    v.pop_front(); v.pop_front();
+    v.push_back(a[1]); v.push_back(a[2]);
+    let n = check(&v);
+    kani::cover!(n == 10, "all 3-byte");
+    kani::cover!(v.as_slices().1.len() > 0, "ring buffer is wrapped");
+    std::mem::forget(v);
+});
+
+// strings: symbolic ASCII bytes plus fixed multi-byte code points
+fn ascii_string<const L: usize>() -> String {
+    let a: [u8; L] = kani::any();
+    let mut i = 0;
+    while i < L {
+        kani::assume(a[i] < 0x80);
+        i += 1;
+    }
+    // valid by the assumption above (ASCII); avoids symbolic execution of the UTF-8 encoder
+    unsafe { String::from_utf8_unchecked(a.to_vec()) }
+}
+/// string harnesses: additionally stub the UTF-8 validator (see common::from_utf8_stub)
+macro_rules! hs {
+    ($name:ident, $unw:expr, $body:block) => {
+        #[kani::proof]
+        #[kani::unwind($unw)]
+        #[kani::stub(std::hash::RandomState::new, rs_stub)]
+        #[kani::stub(alloc::fmt::format, fmt_stub)]
+        #[kani::stub(std::string::String::from_utf8, from_utf8_stub)]
+        fn $name() $body
+    };
+}
+macro_rules! str_rt {
+    ($name:ident, $ty:ty, $len:expr, $conv:expr) => {
+        hs!($name, 10, {
+            let v: $ty = ($conv)(ascii_string::<$len>());
+            let n = check(&v);
+            kani::cover!(n == 1 + $len, "length prefix + bytes");
+            std::mem::forget(v);
+        });
+    };
+}
+str_rt!(c12_q_str_string_0, String, 0, |s: String| s);
+str_rt!(c12_q_str_string_1, String, 1, |s: String| s);
+str_rt!(c12_t_str_string_2, String, 2, |s: String| s);
+str_rt!(c12_t_str_string_3, String, 3, |s: String| s);
+str_rt!(c12_q_str_boxstr_1, Box<str>, 1, |s: String| s.into_boxed_str());
+str_rt!(c12_q_str_arcstr_1, Arc<str>, 1, |s: String| Arc::from(s));
+str_rt!(c12_q_str_pathbuf_1, std::path::PathBuf, 1, |s: String| std::path::PathBuf::from(s));
+str_rt!(c12_t_str_boxstr_2, Box<str>, 2, |s: String| s.into_boxed_str());
+str_rt!(c12_t_str_arcstr_2, Arc<str>, 2, |s: String| Arc::from(s));
+str_rt!(c12_t_str_rcstr_2, Rc<str>, 2, |s: String| Rc::from(s));
+str_rt!(c12_t_str_cowstr_2, std::borrow::Cow<'static, str>, 2, |s: String| std::borrow::Cow::Owned(s));
+str_rt!(c12_t_str_pathbuf_2, std::path::PathBuf, 2, |s: String| std::path::PathBuf::from(s));
+str_rt!(c12_t_str_arcpath_2, Arc<std::path::Path>, 2, |s: String| Arc::from(std::path::PathBuf::from(s).as_path()));
+str_rt!(c12_t_str_boxpath_1, Box<std::path::Path>, 1, |s: String| std::path::PathBuf::from(s).into_boxed_path());
+
+// one symbolic scalar value as a string (all 1..4 byte UTF-8 encodings)
+hs!(c12_t_str_string_char, 12, {
+    let c: char = kani::any();
+    let mut v = String::new();
+    v.push(c);
+    let n = check(&v);
+    kani::cover!(n == 5, "4-byte UTF-8 sequence");
+    kani::cover!(n == 3, "2-byte UTF-8 sequence");
+    std::mem::forget(v);
+});
+
+// ordered maps/sets with symbolic keys
+h!(c12_t_seq_btreeset_2_symbolic_keys, 8, {
+    let a: [u16; 2] = kani::any();
+    let v: BTreeSet<u16> = a.into_iter().collect();
+    let _n = check(&v);
+    kani::cover!(v.len() == 1, "duplicate collapsed");
+    kani::cover!(v.len() == 2, "two distinct");
+    std::mem::forget(v);
+});
+h!(c12_q_seq_btreemap_2, 8, {
+    // concrete keys (tree shape is constant-folded), symbolic values
+    let x: [u16; 2] = kani::any();
+    let mut v: BTreeMap<u8, u16> = BTreeMap::new();
+    v.insert(200, x[0]);
+    v.insert(3, x[1]);
+    let n = check(&v);
+    kani::cover!(n == 9, "both values need 3 bytes");
+    std::mem::forget(v);
+});
+h!(c12_q_seq_btreeset_2, 8, {
+    let mut v: BTreeSet<u16> = BTreeSet::new();
+    v.insert(40000);
+    v.insert(7);
+    let n = check(&v);
+    kani::cover!(n == 5, "1 + 1 + 3 bytes");
+    std::mem::forget(v);
+});
+h!(c12_t_seq_btreemap_2_symbolic_keys, 8, {
+    let k: [u8; 2] = kani::any();
+    let x: [u16; 2] = kani::any();
+    let mut v: BTreeMap<u8, u16> = BTreeMap::new();
+    v.insert(k[0], x[0]);
+    v.insert(k[1], x[1]);
+    let _n = check(&v);
+    kani::cover!(v.len() == 1, "second insert overwrote");
+    kani::cover!(v.len() == 2 && k[0] > k[1], "inserted in descending order");
+    std::mem::forget(v);
+});
+h!(c12_q_seq_btreeset_0, 4, {
+    let v: BTreeSet<u16> = BTreeSet::new();
+    let n = check(&v);
+    kani::cover!(n == 1, "only the length prefix");
+});
+h!(c12_t_seq_btreeset_3_symbolic_keys, 10, {
+    let a: [u8; 3] = kani::any();
+    let v: BTreeSet<u8> = a.into_iter().collect();
+    let _n = check(&v);
+    kani::cover!(v.len() == 3, "three distinct");
+    std::mem::forget(v);
+});
+
+// ------------------------------------------------------------------------------------------
+// derive output
+
+use crate::types::*;
+
+h!(c12_q_derive_unit, 3, { let n = check(&Unit); kani::cover!(n == 0, "zero bytes"); });
+h!(c12_q_derive_tuple_struct, 7, { let v = Tup(kani::any(), kani::any()); let n = check(&v); kani::cover!(n == 8, "max"); });
+h!(c12_q_derive_named_struct, 5, {
+    let v = Named { a: kani::any(), b: kani::any(), c: kani::any() };
+    let n = check(&v);
+    kani::cover!(n == 8, "max");
+    kani::cover!(v.b.is_none(), "None field");
+});
+h!(c12_q_derive_generic_struct, 7, {
+    let v: Gen<u16, Gen<i32, bool>> = Gen { a: kani::any(), b: Gen { a: kani::any(), b: kani::any() } };
+    let n = check(&v);
+    kani::cover!(n == 9, "max");
+});
+h!(c12_q_derive_skip_struct, 5, {
+    let v = Skip { a: kani::any(), cache: kani::any(), b: kani::any() };
+    let s: u8 = kani::any();
+    let (o, left, n) = rt(&v, s);
+    assert!(o.a == v.a && o.b == v.b, "non-skipped fields preserved");
+    assert!(o.cache == 0, "skipped field comes back as Default");
+    assert!(left == 1);
+    kani::cover!(n == 4 && v.cache != 0, "skipped field had a non-default value");
+});
+h!(c12_q_derive_skip_tuple, 5, {
+    let v = SkipTup(kani::any(), kani::any(), kani::any());
+    let s: u8 = kani::any();
+    let (o, left, n) = rt(&v, s);
+    assert!(o.0 == v.0 && o.2 == v.2 && o.1 == 0, "non-skipped preserved, skipped default");
+    assert!(left == 1);
+    kani::cover!(n == 4 && v.1 != 0, "skipped field had a non-default value");
+});
+h!(c12_q_derive_enum, 12, {
+    let v = any_en();
+    let n = check(&v);
+    kani::cover!(matches!(v, En::A), "unit variant");
+    kani::cover!(matches!(v, En::B(..)) && n == 5, "tuple variant max");
+    kani::cover!(matches!(v, En::C { y: Some(_), .. }), "named variant");
+    kani::cover!(matches!(v, En::D(_)), "generic variant");
+    kani::cover!(matches!(v, En::E { .. }), "variant with skipped field");
+    kani::cover!(matches!(v, En::F), "last variant");
+});
+h!(c12_q_derive_enum_skip_default, 12, {
+    let v: En<u8> = En::E { skipped: kani::any(), kept: kani::any() };
+    let s: u8 = kani::any();
+    let (o, left, _n) = rt(&v, s);
+    match (o, v) {
+        (En::E { skipped, kept }, En::E { kept: k0, skipped: s0 }) => {
+            assert!(kept == k0 && skipped == 0, "kept preserved, skipped default");
+            kani::cover!(s0 != 0, "skipped had a value");
+        }
+        _ => assert!(false, "variant changed"),
+    }
+    assert!(left == 1);
+});
+
+// ------------------------------------------------------------------------------------------
+// nesting to depth 3
+
+h!(c12_t_nest_opt_vec_tuple, 9, {
+    let a: (u8, Result<i8, bool>) = kani::any();
+    let b: (u8, Result<i8, bool>) = kani::any();
+    let some: bool = kani::any();
+    let v: Option<Vec<(u8, Result<i8, bool>)>> = if some { Some(vec![a, b]) } else { None };
+    let n = check(&v);
+    kani::cover!(n == 8, "Some, both 1+1+1 bytes");
+    kani::cover!(n == 1, "None");
+    std::mem::forget(v);
+});
+h!(c12_t_nest_vec_vec, 8, {
+    let a: [u16; 2] = kani::any();
+    let b: [u16; 1] = kani::any();
+    let v: Vec<Vec<u16>> = vec![a.to_vec(), vec![], b.to_vec()];
+    let n = check(&v);
+    kani::cover!(n == 13, "all maximal");
+    std::mem::forget(v);
+});
+h!(c12_t_nest_box_opt_arc, 8, {
+    let some: bool = kani::any();
+    let x: i32 = kani::any();
+    let v: Box<Option<Arc<(i32, [u8; 2])>>> = Box::new(if some { Some(Arc::new((x, kani::any()))) } else { None });
+    let n = check(&v);
+    kani::cover!(n == 8, "Some maximal");
+    std::mem::forget(v);
+});
+h!(c12_t_nest_btreemap_vec, 8, {
+    let k: [u8; 2] = [9, 4];
+    let x: [u16; 2] = kani::any();
+    let mut v: BTreeMap<u8, Vec<Option<u16>>> = BTreeMap::new();
+    v.insert(k[0], vec![Some(x[0]), None]);
+    v.insert(k[1], vec![Some(x[1])]);
+    let _n = check(&v);
+    kani::cover!(v.len() == 2, "two keys");
+    std::mem::forget(v);
+});
+h!(c12_t_nest_enum_in_vec, 12, {
+    let v: Vec<En<u16>> = vec![any_en(), any_en()];
+    let _n = check(&v);
+    kani::cover!(matches!(v[0], En::F) && matches!(v[1], En::A), "F then A");
+    std::mem::forget(v);
+});
+hs!(c12_t_nest_string_in_result, 10, {
+    let ok: bool = kani::any();
+    let v: Result<(String, u8), Option<String>> = if ok { Ok((ascii_string::<2>(), kani::any())) } else { Err(Some(ascii_string::<1>())) };
+    let _n = check(&v);
+    kani::cover!(ok, "Ok"); kani::cover!(!ok, "Err");
+    std::mem::forget(v);
+});
+
+// ------------------------------------------------------------------------------------------
+// back to back: self-delimiting encodings
+
+h!(c12_t_b2b_three, 12, {
+    use qbice_serialize::{Decoder, Encoder, Plugin, PostcardDecoder, PostcardEncoder};
+    let a: u32 = kani::any();
+    let b: i64 = kani::any();
+    let c: Option<u16> = kani::any();
+    let plugin = Plugin::new();
+    let mut e = PostcardEncoder::new(Vec::new());
+    let ok = e.encode(&a, &plugin).is_ok() && e.encode(&b, &plugin).is_ok() && e.encode(&c, &plugin).is_ok();
+    assert!(ok, "encode ok");
+    let bytes = e.into_inner();
+    let mut d = PostcardDecoder::new(&bytes[..]);
+    let a2: Option<u32> = d.decode(&plugin).ok();
+    let b2: Option<i64> = d.decode(&plugin).ok();
+    let c2: Option<Option<u16>> = d.decode(&plugin).ok();
+    assert!(a2 == Some(a) && b2 == Some(b) && c2 == Some(c), "values read back in sequence");
+    assert!(d.into_inner().is_empty(), "all bytes consumed");
+    kani::cover!(bytes.len() == 5 + 10 + 4, "all maximal");
+    kani::cover!(bytes.len() == 3, "all minimal");
+});
+hs!(c12_t_b2b_str_vec_enum, 12, {
+    use qbice_serialize::{Decoder, Encoder, Plugin, PostcardDecoder, PostcardEncoder};
+    let a = ascii_string::<2>();
+    let b: Vec<u16> = vec_u16::<2>();
+    let c = any_en();
+    let plugin = Plugin::new();
+    let mut e = PostcardEncoder::new(Vec::new());
+    let ok = e.encode(&a, &plugin).is_ok() && e.encode(&b, &plugin).is_ok() && e.encode(&c, &plugin).is_ok();
+    assert!(ok, "encode ok");
+    let bytes = e.into_inner();
+    let mut d = PostcardDecoder::new(&bytes[..]);
+    let a2: Option<String> = d.decode(&plugin).ok();
+    let b2: Option<Vec<u16>> = d.decode(&plugin).ok();
+    let c2: Option<En<u16>> = d.decode(&plugin).ok();
+    assert!(a2.as_ref() == Some(&a) && b2.as_ref() == Some(&b) && c2 == Some(c), "values read back in sequence");
+    assert!(d.into_inner().is_empty(), "all bytes consumed");
+    kani::cover!(matches!(c, En::C { .. }), "named variant last");
+    std::mem::forget((a, b, a2, b2));
+});
+
+// ------------------------------------------------------------------------------------------
+// deliberately wrong twins (must be refuted by the solver)
+
 h!(c12_xq_int_u16, 5, {
     let v: u16 = kani::any();
     let s: u8 = kani::any();
     let (o, _left, n) = rt(&v, s);
-    assert!(n != 3 || o != v, "TWIN deliberately wrong");
+    assert!(n != 3 || o != v, "TWIN deliberately wrong: 3-byte encodings do not round trip");
+});
+h!(c12_x_seq_vec_2, 6, {
+    let v = vec_u16::<2>();
+    let s: u8 = kani::any();
+    let (o, _left, _n) = rt(&v, s);
+    assert!(o[0] != v[0] || o[1] != v[1] || v[0] <= v[1], "TWIN deliberately wrong");
+});
+h!(c12_x_derive_enum, 12, {
+    let v = any_en();
+    let s: u8 = kani::any();
+    let (o, _left, _n) = rt(&v, s);
+    assert!(!(o == v && matches!(v, En::E { .. })), "TWIN deliberately wrong");
 });
 
 include!("gen/playback_c12.rs");
